@@ -147,12 +147,13 @@ def stepSess (all : St) (s : Sess) : List String → Option (Sess × String)
     match relayStrip C s.ccfg.reqPrefix.length s.ccfg.psk.length ipsk next s.c2s.flatten with
     | some w => some ({ s with c2s := [w] }, s!"ok {sum w}")
     | none => some (s, "fail")
-  | ["handle", now, first] => do
-    let now ← now.toInt?; let first ← first.toNat?
+  | ["handle", now, first, touts] => do
+    -- touts: absolute offsets in the client→server stream at which the transport reports a read deadline
+    let now ← now.toInt?; let first ← first.toNat?; let touts ← parseCsvNat touts
     let w := s.c2s.flatten
     match handle C s.scfg now [w.take first, w.drop first] with
     | .request req r salt upsk =>
-      some ({ s with sr := some ⟨r, none⟩, req := some (req.addr, req.user), sw := some ⟨upsk, s.scfg.respPrefix, salt, none⟩ },
+      some ({ s with sr := some (installTimeouts r touts (w.length - r.wire.length)), req := some (req.addr, req.user), sw := some ⟨upsk, s.scfg.respPrefix, salt, none⟩ },
         s!"request {toHexField (encodeAddr req.addr)} {if req.user.isEmpty then "-" else req.user} {sum req.payload}")
     | .fallback p => some (s, s!"fallback {sum p}")
     | .error e => some (s, s!"error {e.name}")
@@ -182,17 +183,14 @@ def stepSess (all : St) (s : Sess) : List String → Option (Sess × String)
     let (segs, w') := w.readFrom C ch (cutBy sizes d)
     some ({ s with s2c := s.s2c ++ segs, sw := some w' },
       s!"{if CapsOk w.respPrefix.length w.psk.length ch then "ok" else "bad-choice"} segs {sums segs}")
-  | ["cseg", first, u] => do
-    -- first segment of `first` bytes, the rest in segments of `u` bytes (for reads repeated after a failed first read)
-    let first ← first.toNat?; let u ← u.toNat?
+  | ["cseg", first, u, touts] => do
+    -- first segment of `first` bytes, the rest in segments of `u` bytes (0: one segment); read deadlines at `touts`
+    let first ← first.toNat?; let u ← u.toNat?; let touts ← parseCsvNat touts
     let w := s.s2c.flatten
     let rest := w.drop first
     let segs := if u = 0 then [rest] else cutBy (List.replicate (rest.length / u) u) rest
-    some ({ s with cr := some ⟨s.ccfg.psk, s.ccfg.respPrefix, s.reqSalt, s.ccfg.allowSeg, w.take first :: segs, none, none⟩ }, "ok")
-  | ["cseg", first] => do
-    let first ← first.toNat?
-    let w := s.s2c.flatten
-    some ({ s with cr := some ⟨s.ccfg.psk, s.ccfg.respPrefix, s.reqSalt, s.ccfg.allowSeg, [w.take first, w.drop first], none, none⟩ }, "ok")
+    some ({ s with cr := some { psk := s.ccfg.psk, respPrefix := s.ccfg.respPrefix, reqSalt := s.reqSalt, allowSeg := s.ccfg.allowSeg,
+                                segs := w.take first :: segs, r := none, touts := touts, total := w.length } }, "ok")
   | ["cread", now, n] => do
     let now ← now.toInt?; let n ← n.toNat?; let c ← s.cr
     let (o, c') := c.readS C now n
